@@ -912,6 +912,15 @@ func (cs *ContractSet) genOverlay(sp *srcPkg, contracts []*Contract, axioms []*C
 		for _, k := range loopNs {
 			ls := c.Loops[k]
 			ps := append(append([]Param{}, base...), ls.Vars...)
+			for _, cp := range c.Captures {
+				if strings.HasPrefix(cp[1], "entry ") {
+					for _, g := range c.Ghost {
+						if g.Name == cp[0] {
+							ps = append(ps, g) // entry values are known everywhere in the function
+						}
+					}
+				}
+			}
 			for _, cl := range ls.Invariants {
 				do(cl, ps)
 			}
